@@ -236,9 +236,31 @@ var fieldSets = []fieldDef{
 var variants = []string{"direct", "with-child", "sugar", "check-write"}
 
 type probe struct {
-	idx            int
-	cfg, fs, vrnt  int
-	name           string
+	idx           int
+	cfg, fs, vrnt int
+	name          string
+	pers          bool // runs on the history's long-lived logger of this configuration (fresh in the baseline)
+}
+
+// persLogger is a long-lived logger with an accumulated context that ends inside an open
+// namespace; histories keep using it between probes.
+type persLogger struct {
+	l       *zap.Logger
+	out, eo *sink
+}
+
+func buildPers(cfg int) *persLogger {
+	p := &persLogger{out: &sink{}, eo: &sink{}}
+	p.l = cfgs[cfg].build(p.out, p.eo).With(zap.String("svc", "api"), zap.Namespace("req"), zap.String("id", "42"))
+	return p
+}
+
+func buildAllPers() []*persLogger {
+	out := make([]*persLogger, len(cfgs))
+	for i := range cfgs {
+		out[i] = buildPers(i)
+	}
+	return out
 }
 
 var catalogue []probe
@@ -247,23 +269,32 @@ func init() {
 	for c := range cfgs {
 		for f := range fieldSets {
 			v := (c + f) % len(variants)
-			catalogue = append(catalogue, probe{len(catalogue), c, f, v, cfgs[c].name + "/" + fieldSets[f].name + "/" + variants[v]})
+			catalogue = append(catalogue, probe{idx: len(catalogue), cfg: c, fs: f, vrnt: v, name: cfgs[c].name + "/" + fieldSets[f].name + "/" + variants[v]})
 		}
 	}
 	// slog probes
 	for c := 0; c < 2; c++ {
-		catalogue = append(catalogue, probe{len(catalogue), c, -1, 0, cfgs[c].name + "/slog-handler"})
+		catalogue = append(catalogue, probe{idx: len(catalogue), cfg: c, fs: -1, name: cfgs[c].name + "/slog-handler"})
+	}
+	// probes on long-lived loggers
+	for c := range cfgs {
+		for _, f := range []int{0, 1, 2, 3, 6, 8} {
+			v := (c + f) % len(variants)
+			catalogue = append(catalogue, probe{idx: len(catalogue), cfg: c, fs: f, vrnt: v, name: "long-lived:" + cfgs[c].name + "/" + fieldSets[f].name + "/" + variants[v], pers: true})
+		}
 	}
 }
 
 //go:noinline
-func probeBody(p probe, out, eo *sink) (panicked string) {
+func probeBody(p probe, l *zap.Logger) (panicked string) {
 	defer func() {
 		if x := recover(); x != nil {
 			panicked = fmt.Sprint(x)
 		}
 	}()
-	l := cfgs[p.cfg].build(out, eo)
+	if l == nil {
+		return "harness: no logger"
+	}
 	if p.fs < 0 {
 		h := zapslog.NewHandler(l.Core(), zapslog.WithName("sl"), zapslog.WithCaller(false))
 		rec := slog.NewRecord(fixedTime, slog.LevelWarn, "slog probe", 0)
@@ -297,10 +328,21 @@ func probeBody(p probe, out, eo *sink) (panicked string) {
 
 // runProbe runs the probe on its own goroutine, so that captured stacks are identical
 // wherever the probe is started from.
-func runProbe(p probe) []byte {
+func runProbe(p probe, pers []*persLogger) []byte {
 	out, eo := &sink{}, &sink{}
+	var l *zap.Logger
+	if p.pers {
+		pl := buildPersIfNil(pers, p.cfg)
+		pl.out.buf, pl.eo.buf = pl.out.buf[:0], pl.eo.buf[:0]
+		out, eo, l = pl.out, pl.eo, pl.l
+	}
 	done := make(chan string, 1)
-	go func() { done <- probeBody(p, out, eo) }()
+	go func() {
+		if l == nil {
+			l = cfgs[p.cfg].build(out, eo)
+		}
+		done <- probeBody(p, l)
+	}()
 	pan := <-done
 	res := append([]byte{}, out.buf...)
 	res = append(res, "\x00ERROUT\x00"...)
@@ -318,6 +360,13 @@ func (h retHook) OnWrite(ce *zapcore.CheckedEntry, _ []zapcore.Field) {
 	h.s.buf = append(h.s.buf, ("terminal hook ran for: " + ce.Message + "\n")...)
 }
 
+func buildPersIfNil(pers []*persLogger, cfg int) *persLogger {
+	if pers == nil {
+		return buildPers(cfg) // baseline: the probe is the logger's (and the process's) first call
+	}
+	return pers[cfg]
+}
+
 // ---- history operations ------------------------------------------------------------------------
 
 type histEnv struct {
@@ -327,6 +376,7 @@ type histEnv struct {
 	names   []string
 	sinks   []*sink
 	encs    []zapcore.Encoder
+	pers    []*persLogger
 }
 
 func newHistEnv(g *rng.R) *histEnv {
@@ -358,6 +408,7 @@ func newHistEnv(g *rng.R) *histEnv {
 		add("sampled-console", l, s)
 	}
 	h.encs = []zapcore.Encoder{zapcore.NewJSONEncoder(baseCfg()), zapcore.NewConsoleEncoder(zap.NewDevelopmentEncoderConfig())}
+	h.pers = buildAllPers()
 	return h
 }
 
@@ -477,6 +528,27 @@ var histOps = []histOp{
 		l.Fatal("history fatal, hook returns")
 		l.Panic("history panic, hook returns")
 	}},
+	{"long-lived-logger:entry-without-fields", func(h *histEnv) { rng.Pick(h.g, h.pers).l.Info("no fields") }},
+	{"long-lived-logger:entry-with-fields", func(h *histEnv) {
+		rng.Pick(h.g, h.pers).l.Warn("fields", zap.Int("status", 200), zap.Namespace("deeper"), zap.Reflect("r", []int{1}))
+	}},
+	{"long-lived-logger:derive-children-and-log", func(h *histEnv) {
+		l := rng.Pick(h.g, h.pers).l
+		c1 := l.With(zap.Int("c1", 1))
+		c2 := l.With(zap.Namespace("c2ns"), zap.String("c2", "x"))
+		c1.Info("child one")
+		c2.Error("child two", zap.Error(errors.New("e")))
+		l.WithLazy(zap.Int("lz", 1)).Named("lz").Debug("lazy child")
+	}},
+	{"long-lived-logger:sugar-check-sync", func(h *histEnv) {
+		l := rng.Pick(h.g, h.pers).l
+		l.Sugar().Infow("sugar", "k", 1)
+		if ce := l.Check(zapcore.ErrorLevel, "checked"); ce != nil && h.g.Bool() {
+			ce.Write()
+		}
+		_ = l.Sync()
+		quiet(func() { l.Panic("long-lived panic") })
+	}},
 	{"check-without-write", func(h *histEnv) { _ = h.lg().Check(zapcore.ErrorLevel, "checked, never written") }},
 	{"check-write-with-after", func(h *histEnv) {
 		if ce := h.lg().Check(zapcore.InfoLevel, "check-write"); ce != nil {
@@ -540,7 +612,7 @@ var histOps = []histOp{
 func baselineChild(args []string) {
 	var idx int
 	fmt.Sscanf(args[1], "%d", &idx)
-	b := runProbe(catalogue[idx])
+	b := runProbe(catalogue[idx], nil)
 	_ = os.WriteFile(args[2], []byte(hex.EncodeToString(b)), 0o644)
 	os.Exit(0)
 }
@@ -701,7 +773,7 @@ func history(r *ev.Run, i int, base map[int][]byte) {
 			for _, s := range h.sinks {
 				totalBefore += len(s.buf)
 			}
-			got := runProbe(p)
+			got := runProbe(p, h.pers)
 			r.SetAdd("lastop_x_probe", lastOp+"|"+p.name)
 			r.SetAdd("op_pairs_before_probe", prevOp+">"+lastOp)
 			if lastOp == "gc-twice" {
@@ -754,9 +826,15 @@ func concurrent(r *ev.Run, i int, base map[int][]byte) {
 	}
 	nprobes := g.Range(40, 120)
 	ok := true
+	pers := buildAllPers()
 	for k := 0; k < nprobes && ok; k++ {
 		p := rng.Pick(g, catalogue)
-		got := runProbe(p)
+		if g.P(1, 4) { // keep using the long-lived loggers between probes
+			pl := rng.Pick(g, pers)
+			pl.l.Info("no fields")
+			pl.l.With(zap.Int("c", k)).Warn("child", zap.Int("f", 1))
+		}
+		got := runProbe(p, pers)
 		r.SetAdd("concurrent_probes", p.name)
 		ok = compare(r, id, p, got, base[p.idx], []string{fmt.Sprintf("%d background goroutines running random histories on other loggers", nbg)}, "concurrent with histories on other loggers")
 		r.Count("concurrent_probe_comparisons", 1)
